@@ -464,6 +464,15 @@ func gen(a Args, out *Out) {
 		h.Size()
 		emit("fanout", h)
 	}
+	// 9. the REAL worker goroutine with nobody reading Chan() (see drv.Live): every one-shot
+	// timer is delivered exactly once or cancelled, and a timer received from Chan() is no
+	// longer reported by IsScheduled() / counted by Size() — also while the worker is still
+	// busy handing over the rest of the same tick
+	for _, lv := range [][2]int64{{drv.ImplLiveWheel, 260}, {drv.ImplLiveHeap, 640}} {
+		in := List(Int(lv[0]), Int(lv[1]+int64(rng.Intn(60))), Int(0), List())
+		out.Case("live", true, in, drv.Run(in))
+		out.Count("live-worker-scenarios")
+	}
 	fanout(a, rng.Fork(), out)
 
 	sweeps(a, rng.Fork(), out)
